@@ -99,7 +99,11 @@ def gen(rng: Any, prop: str, tier: str) -> dict[str, Any]:
             g.m.close(sid)
             g.exec("root", {"t": "drop_schema", "db": ctx0[0], "name": ctx0[1]})
             d, s = rng.choice([ctx0[0], ctx0[0].lower()]), rng.choice([ctx0[1], ctx0[1].lower()])
-        g.ops.append({"s": sid, "k": "connect", "database": d, "schema": s, "cfg": True})
+        extra = {}
+        if rng.random() < 0.2:
+            # connector arguments fakesnow accepts and ignores: they must not change what connect() does to the catalog
+            extra["session_parameters"] = rng.choice([{"AUTOCOMMIT": False}, {"autocommit": False}, {"QUERY_TAG": "t"}, {"AUTOCOMMIT": True, "TIMEZONE": "UTC"}])
+        g.ops.append({"s": sid, "k": "connect", "database": d, "schema": s, "cfg": True, **extra})
         g.m.connect(sid, d, s)
         # probe the context with an unqualified statement, then use the session a little
         g.exec(sid, {"t": "select", "ref": [None, None, "NOPE_PROBE"]})
